@@ -86,6 +86,13 @@ class UQ(queue.Empty):
     """the user's own code raises queue.Empty (kind UEMPTY)"""
 
 
+def _kinds(P):
+    """(fail_kind, taskfail_kind) of a model; replay files written before the kinds were generalised carry booleans"""
+    fk = P.get('fail_kind', 3 if P.get('fail_base') else 2)
+    tk = P.get('taskfail_kind', 3 if P.get('taskfail_base') else 2)
+    return fk, tk
+
+
 def _exc_class(kind):
     return {2: UE, 3: UB, 5: UQ}[kind]
 
@@ -99,7 +106,7 @@ def replay_stp(model, step_timeout=1.0):
     import lazy_dataset.parallel_utils as pu
     pu_file = pu.__file__
     P = model['params']
-    n, buffer_size, close_at, fail_at, fail_kind = P['n'], P['buffer_size'], P['close_at'], P['fail_at'], P['fail_kind']
+    n, buffer_size, close_at, fail_at, fail_kind = P['n'], P['buffer_size'], P['close_at'], P['fail_at'], _kinds(P)[0]
     ctl = Controller()
     names = ('single_thread_prefetch', 'worker')
 
@@ -252,7 +259,7 @@ def observed_violation(mode, model, obs):
         return obs['delivered'] != list(range(P['n'])) or obs['end'] != 'return', f'delivered {obs["delivered"]} of n={P["n"]}, ended with {obs["end"]}'
     if mode.startswith('error_position') or mode.startswith('src_error_position'):
         f = P['fail_at'] if P['fail_at'] >= 0 else P['taskfail']
-        want_end = _end_name(P['fail_kind'] if P['fail_at'] >= 0 else P['taskfail_kind'])
+        want_end = _end_name(_kinds(P)[0] if P['fail_at'] >= 0 else _kinds(P)[1])
         ok = obs['delivered'] == list(range(f)) and obs['end'] == want_end
         return not ok, f'failure at position {f}: delivered {obs["delivered"]}, generator ended with {obs["end"]} (expected {want_end})'
     if mode == 'after_return':
@@ -324,7 +331,7 @@ def replay_lpm_thread(model, step_timeout=1.0):
     pu_file = pu.__file__
     P = model['params']
     n, B, Wk, close_at = P['n'], P['buffer_size'], P['max_workers'], P['close_at']
-    fail_at, fail_kind, taskfail, taskfail_kind = P['fail_at'], P['fail_kind'], P['taskfail'], P['taskfail_kind']
+    fail_at, fail_kind, taskfail, taskfail_kind = P['fail_at'], _kinds(P)[0], P['taskfail'], _kinds(P)[1]
     ctl = Controller()
     names = ('lazy_parallel_map', 'submit', 'result', 'terminate')
 
